@@ -154,6 +154,25 @@ def run_lines(binary, lines, timeout=1800, shards=None):
     """Feed case lines to a line-oriented binary; returns the output lines (same count)."""
     if not lines:
         return []
+    # cases that may kill the process (allocation-failure sweeps) run one per process
+    iso = [i for i, l in enumerate(lines) if l.startswith("alloclim ")]
+    if iso and len(iso) < len(lines):
+        rest_idx = [i for i in range(len(lines)) if not lines[i].startswith("alloclim ")]
+        rest = run_lines(binary, [lines[i] for i in rest_idx], timeout, shards)
+        out = [None] * len(lines)
+        for i, o in zip(rest_idx, rest):
+            out[i] = o
+        for i in iso:
+            out[i] = run_lines(binary, [lines[i]], timeout, 1)[0]
+        return out
+    if iso:
+        outs = []
+        for l in lines:
+            p = subprocess.run(["bash", "-c", "ulimit -s unlimited 2>/dev/null; exec " + binary], input=l + "\n",
+                               stdout=subprocess.PIPE, stderr=subprocess.DEVNULL, text=True, env=ENV, timeout=timeout)
+            o = p.stdout.split("\n")[0] if p.stdout else ""
+            outs.append(o if p.returncode == 0 and o else "ABORT(rc=%d)%s" % (p.returncode, o[:200]))
+        return outs
     shards = shards or min(NCPU, max(1, len(lines) // 200))
     chunks = [lines[i::shards] for i in range(shards)]
     procs = []
